@@ -141,7 +141,8 @@ theorem exchangeBatch_rel_more (run : ProbeRunner) {w : World} {fl : List Nat} (
     show r.target.id < w.isTarget.length
     rw [h.link.tgtLen]; exact h.link.lt_of_in (htin r hrm)
   have ma := moveLoopX_post bts i2 mok (by rw [i3.entities]; exact hrows) hreg
-  have hlocks : (bts.foldl (moveStepX rels) w1).locks.unlock b = some l2 := by
+  have hlocks : (registerW (bts.foldl (moveStepX rels) w1) rels).locks.unlock b = some l2 := by
+    show (bts.foldl (moveStepX rels) w1).locks.unlock b = some l2
     rw [ma.locks, i3.untouched.locks]; exact hcyc.unlock
   rw [unlock_ok hlocks] at hbatch
   rw [hbatch] at hok
